@@ -1,5 +1,14 @@
 ---------------------------- MODULE GenFSNodeMeta ----------------------------
-(* Phase G for C18.  Three families of behaviours (one TLC run):
+(* Phase G for C18.  Four families of behaviours (one TLC run):
+
+   "ctor": EVERY entry point that takes (mode, mtime) -- the stat-taking constructors, the plain
+           constructors followed by the setters, and the hamt / uio directory / importer paths that call
+           them (EntryTab of FSNodeMeta) -- crossed with EVERY mtime class (zero, epoch, sub-second,
+           whole second, negative, negative sub-second, far past/future) and, by rotation, a class of
+           extra non-permission os.FileMode bits (none / ModeDir / many) and a block of permission
+           values next to the fixed boundary values.  Each line carries what must be read back from
+           the produced node: the metadata model of NewFSNode(type); SetMode; SetModTime (AfterEntry),
+           and again after SetExtendedMode on the parsed node and another wire round trip.
 
    "case": EVERY 12-bit permission value (64 lines x 64 values per node type) combined with an
            extended-bits pattern, a call order (mode then ext / ext then mode), an entry point
@@ -11,7 +20,9 @@
    "size": every sequence of D2 size mutators, observables after each step.  *)
 EXTENDS FSNodeMeta
 CONSTANTS V, D1, D2,
-          CaseTypes, HistTypesMeta, HistTypesSize
+          CaseTypes, HistTypesMeta, HistTypesSize,
+          CtorSalts,   \* rotation offsets of the "ctor" family (quick: one, chosen by the runner's seed)
+          CtorRows     \* rotated permission values per "ctor" line (next to the fixed boundary values)
 VARIABLES fam, case, hist
 gvars == <<vars, fam, case, hist>>
 
@@ -39,8 +50,36 @@ TimeSeq  == << ZeroTime,
                [neg |-> TRUE, mag |-> ZeroTimeMag, ns |-> 1], [neg |-> TRUE, mag |-> <<63233, 30609, 14, 0>>, ns |-> 0],
                [neg |-> TRUE, mag |-> <<0, 0, 0, 64>>, ns |-> 999999999] >>
 Pick(seq, i) == seq[(i % Len(seq)) + 1]
-MtObs(t) == IF IsZeroTime(t) THEN ZeroTime ELSE t
-MtWire(t) == [present |-> ~IsZeroTime(t), nanos |-> ~IsZeroTime(t) /\ t.ns > 0]
+MtObs(t) == TimeOf(t)
+MtWire(t) == WireOf(t)
+
+(* ---- entry points x mtime classes x mode classes *)
+EntrySeqAll == << "FilePBDataWithStat", "FolderPBDataWithStat", "EmptyDirNodeWithStat", "HAMTShardDataWithStat",
+                  "WrapDataSetters", "SymlinkDataSetters", "FilePBDataSetters", "FolderPBDataSetters",
+                  "HAMTShardDataSetters", "NewFSNodeMetadata",
+                  "HamtShardSetStat", "UioBasicWithStat", "UioHAMTWithStat", "UioBasicToHAMT", "UioHAMTToBasic",
+                  "UioReloadHAMT", "UioReloadBasic", "ImporterOneChunk", "ImporterManyChunks" >>
+ASSUME {EntrySeqAll[i] : i \in 1..Len(EntrySeqAll)} = EntryNames          \* the alphabet is the whole table
+CtorJunkSeq == << {}, {31}, {9, 10, 11, 19, 21, 24, 26, 27} >>
+FixedPerms  == <<0, 1, 420, 511, 512, 1024, 2048, 4095>>
+MkCtor(ei, ti, salt) ==
+  LET en    == EntrySeqAll[ei]
+      tab   == EntryTab[en]
+      tm    == TimeSeq[ti]
+      jk0   == Pick(CtorJunkSeq, ei + ti + salt)
+      e     == Pick(ExtSeq, ei + 2 * ti + salt)
+      blk   == (7 * ei + 11 * ti + 13 * salt) % (4096 \div CtorRows)
+      perms == FixedPerms \o [i \in 1..CtorRows |-> CtorRows * blk + i - 1]
+      row(p) == LET \* a type-only argument (permission 0 + other bits) only where the presence rule is crisp
+                    jk == IF p = 0 /\ tab.pkg # "unixfs" THEN {} ELSE jk0
+                    s  == AfterEntry(en, OsOfUnix(p) \cup jk, tm)
+                IN  [p |-> p, osin |-> Sorted(OsOfUnix(p) \cup jk),        \* the os.FileMode handed to the entry point
+                     bits |-> Sorted(ModeOf(s.typ, s.perm)),               \* Mode() of the produced node
+                     present0 |-> s.modeSet,                               \* mode field on the wire as produced
+                     present |-> (s.perm # 0 \/ e.lo # 0)]                 \* ... after SetExtendedMode(e) on the parsed node
+  IN [k |-> "ctor", entry |-> en, pkg |-> tab.pkg, typ |-> tab.typ, ext |-> e, t |-> tm,
+      expExt |-> e.lo, expMt |-> TimeOf(tm), expMtWire |-> WireOf(tm),
+      ps |-> [i \in 1..Len(perms) |-> row(perms[i])]]
 
 MkCase(base, ti, v) ==
   LET t   == TypeSeq[ti]
@@ -65,6 +104,10 @@ GInit == \/ /\ fam = "case" /\ hist = <<>>
             /\ \E base \in 0..63, ti \in CaseTypes, v \in 0..(V - 1) : case = MkCase(base, ti, v)
             /\ typ = "Raw" /\ perm = 0 /\ ext = 0 /\ modeSet = FALSE /\ mtime = ZeroTime
             /\ dlen = 0 /\ blocks = <<>> /\ fsize = 0
+         \/ /\ fam = "ctor" /\ hist = <<>>
+            /\ \E ei \in 1..Len(EntrySeqAll), ti \in 1..Len(TimeSeq), salt \in CtorSalts : case = MkCtor(ei, ti, salt)
+            /\ typ = "Raw" /\ perm = 0 /\ ext = 0 /\ modeSet = FALSE /\ mtime = ZeroTime
+            /\ dlen = 0 /\ blocks = <<>> /\ fsize = 0
          \/ /\ fam = "meta" /\ case = NoCase /\ hist = <<>> /\ Init /\ typ \in HistTypesMeta
          \/ /\ fam = "size" /\ case = NoCase /\ hist = <<>> /\ Init /\ typ \in HistTypesSize
 
@@ -85,10 +128,10 @@ GNext == /\ UNCHANGED <<fam, case>>
             \/ fam = "size" /\ Len(hist) < D2 /\ SizeNext
 GSpec == GInit /\ [][GNext]_gvars
 
-Emit == /\ fam = "case" => PrintT(<<"BEHAVIOUR", ToJson(case)>>)
+Emit == /\ fam \in {"case", "ctor"} => PrintT(<<"BEHAVIOUR", ToJson(case)>>)
         /\ (fam = "meta" /\ Len(hist) = D1) => PrintT(<<"BEHAVIOUR", ToJson([k |-> "meta", typ |-> typ, steps |-> hist])>>)
         /\ (fam = "size" /\ Len(hist) = D2) => PrintT(<<"BEHAVIOUR", ToJson([k |-> "size", typ |-> typ, steps |-> hist])>>)
-GProps == fam # "case" => (TypeOK /\ ModeReadBack /\ UnsetRule /\ FileSizeIsContent)
+GProps == fam \notin {"case", "ctor"} => (TypeOK /\ ModeReadBack /\ UnsetRule /\ FileSizeIsContent)
 
 GPerms == {0, 420, 512, 4095}
 GJunk  == {{}, {31, 27}}
